@@ -126,6 +126,9 @@ def run_s5(chk, quick, rnd, replay_execs=None):
     chk.cov["socks5_replay_wall_s"] = r["wall_s"]
     s = vf.tlc_trace("IbbS5Trace.tla", "IbbS5Trace.cfg", trace)
     cases = vf.split_cases(trace)
+    busy = [c for c, lines in cases.items() if lines[-1].get("o", {}).get("timeout")]
+    if busy:
+        raise vf.MachineryError(f"qxv ibbs5: executions {busy[:5]} were still active after 120 s (hang detector): no outcome to judge")
     # a stalled transfer is judged by rounds without any activity: confirm with a 4x longer quiet period
     bad = sorted({v["case"] for v in s["viol"]}, key=lambda c: int(c[1:]))
     if bad and replay_execs is None:
